@@ -229,7 +229,7 @@ def _strip_cast(e: ast.AST) -> ast.AST:
 
 def _per_datatype_codec(func: ast.AST, local: str, table: str, factory: str) -> bool:
     """inside `if self._encoding:` of `func`: `<local> = self.<table>.get(datatype)`, then `if not <local>:` with
-    exactly `<local> = self.<factory>(self._errors)` and `self.<table>[datatype] = <local>` (repair 7b04301: one
+    exactly `<local> = self.<factory>(self._errors)` and `self.<table>[datatype] = <local>` (repair 98283c0: one
     incremental codec object per data type, created on first use)"""
     for n in ast.walk(func):
         if isinstance(n, ast.If) and ast.unparse(n.test) == 'self._encoding':
@@ -256,7 +256,7 @@ def _loop_over_decoders(func: ast.AST, call: str) -> bool:
 
 def session_request_items(tree: ast.AST) -> Dict[str, Any]:
     """`SSHServerChannel._start_session`: is a shell / exec / subsystem request refused once one has succeeded
-    (repair b98700f)?  First statement `if self._session_started:` whose body ends in `return False`; the flag is set
+    (repair e7dbee0)?  First statement `if self._session_started:` whose body ends in `return False`; the flag is set
     from the result right before `return result`; `__init__` clears it; nothing else writes it.  And the shape of
     `SSHChannel._report_response` that makes the question matter: a successful request of these kinds calls
     `session_started()` and `resume_reading()`."""
@@ -286,7 +286,7 @@ def session_request_items(tree: ast.AST) -> Dict[str, Any]:
 
 def tun_items(tree: ast.AST) -> Dict[str, Any]:
     """`SSHTunTapChannel._accept_data`: under `if self._mode == SSH_TUN_MODE_POINTTOPOINT:` the stripped address
-    family is subtracted from `_recv_window` (`self._recv_window -= len(data[:4])`, repair 6aa4f78) before
+    family is subtracted from `_recv_window` (`self._recv_window -= len(data[:4])`, repair 9f86e20) before
     `data = data[4:]`; then `super()._accept_data(data, datatype)`"""
     acc = T.find_def(tree, 'SSHTunTapChannel._accept_data')
     body = [b for b in acc.body if not (isinstance(b, ast.Expr) and isinstance(b.value, ast.Constant))]
@@ -302,7 +302,7 @@ def tun_items(tree: ast.AST) -> Dict[str, Any]:
 
 def text_codec_items(cls: ast.AST, write: ast.AST, setenc: ast.AST, deliver: ast.AST) -> Dict[str, Any]:
     """which codec objects the text layer goes through: read from `write`, `set_encoding`, `_deliver_data`,
-    `_discard_recv`, `_flush_recv_buf` — one incremental encoder / decoder per channel (before repair 7b04301) or
+    `_discard_recv`, `_flush_recv_buf` — one incremental encoder / decoder per channel (before repair 98283c0) or
     one per data type (since)"""
     def assigned(func: ast.AST, name: str, under: str) -> List[ast.AST]:
         """values assigned to `name` in the body of `if <under>:` (not its else) inside func"""
